@@ -38,9 +38,8 @@ func (f *clientHeartBeatProcessor) Process(ctx context.Context, rpcMessage messa
 			log.Debug("received PONG from {}", ctx)
 		}
 	}
-	msgFuture := getty.GetGettyRemotingClient().GetMessageFuture(rpcMessage.ID)
-	if msgFuture != nil {
-		getty.GetGettyRemotingClient().RemoveMessageFuture(rpcMessage.ID)
-	}
+	// heartbeat ids come from the listener's own generator and heartbeats own
+	// no entry of the pending-request table: removing "their" entry here would
+	// drop the entry of whichever request happens to carry the same id
 	return nil
 }
